@@ -1,0 +1,48 @@
+//! Verification hook (feature `verif-hooks`; add-only, read-only, off by default).
+//!
+//! Runs the crate-private `ConsumeUnverifiedBlockProcessor::find_fork` (with its
+//! `alignment_fork` / `find_fork_until_latest_common` / `is_sorted_assert`) against the store of
+//! the given `Shared`, exactly as `verify_block` calls it, and returns what it computed together
+//! with `ForkChanges::verified_len()`.  Nothing is written.
+use crate::utils::forkchanges::ForkChanges;
+use crate::verify::ConsumeUnverifiedBlockProcessor;
+use ckb_proposal_table::ProposalTable;
+use ckb_shared::Shared;
+use ckb_types::core::{BlockExt, BlockNumber, BlockView};
+use ckb_types::packed::Byte32;
+use dashmap::DashSet;
+use std::sync::Arc;
+
+/// The result of `find_fork`, in the order of the deques (front first).
+pub struct VerifForkChanges {
+    /// hashes of `fork.detached_blocks`
+    pub detached: Vec<Byte32>,
+    /// hashes of `fork.attached_blocks`
+    pub attached: Vec<Byte32>,
+    /// `fork.dirty_exts`
+    pub dirty_exts: Vec<BlockExt>,
+    /// `fork.verified_len()`
+    pub verified_len: usize,
+}
+
+/// `find_fork(&mut ForkChanges::default(), current_tip_number, new_tip, new_tip_ext)`
+pub fn verif_find_fork(
+    shared: &Shared,
+    current_tip_number: BlockNumber,
+    new_tip: &BlockView,
+    new_tip_ext: BlockExt,
+) -> VerifForkChanges {
+    let processor = ConsumeUnverifiedBlockProcessor {
+        shared: shared.clone(),
+        is_pending_verify: Arc::new(DashSet::new()),
+        proposal_table: ProposalTable::new(shared.consensus().tx_proposal_window()),
+    };
+    let mut fork = ForkChanges::default();
+    processor.find_fork(&mut fork, current_tip_number, new_tip, new_tip_ext);
+    VerifForkChanges {
+        detached: fork.detached_blocks().iter().map(|b| b.hash()).collect(),
+        attached: fork.attached_blocks().iter().map(|b| b.hash()).collect(),
+        dirty_exts: fork.dirty_exts.iter().cloned().collect(),
+        verified_len: fork.verified_len(),
+    }
+}
